@@ -1279,48 +1279,55 @@ Definition batch_callback (tid : nat) (vals : list (nat * Z)) (row : nat) : MW u
         whenM (negb (ck_zs k)) (modT tid (fun t => t <| t_cols ::= updf ci (upd row (snd cv)) |>))
     end).
 
-Definition w_new_entities (count : nat) : MW unit :=
+(** [fn]: whether the caller passed a callback. Without one the world is only locked if observers
+    have to be notified (NewEntities: shouldLock := hasObs || fn != nil). *)
+Definition w_new_entities (count : nat) (fn : bool) : MW unit :=
   check_locked ;;;
   r <- new_entities count [] [] ;;
   let '(tid, start) := r in
-  l <- lockM ;;
-  forM_ (seq start count) (fun i => batch_callback tid [] i) ;;;
-  s <- get ;;
-  whenM (has_obs s EvCreateEntity) (
+  s0 <- get ;;
+  let has_obs0 := has_obs s0 EvCreateEntity in
+  let should_lock := (has_obs0 || fn)%bool in
+  l <- (if should_lock then lockM else ret 0) ;;
+  whenM fn (forM_ (seq start count) (fun i => batch_callback tid [] i)) ;;;
+  whenM has_obs0 (
     m <- arch_mask_of_table tid ;;
     es <- rows_of tid start count ;;
     fire_rows (fun e eo => fire_create_entity e m eo) es true) ;;;
-  unlockM l.
+  whenM should_lock (unlockM l).
 
 (** MapN.NewBatchFn: [mm] is the mapper's own mask (used for the events), [nrel] the number of
     relations passed by the caller. *)
-Definition w_new_batch (count : nat) (ids : list nat) (rels : list rel) (vals : list (nat * Z)) : MW unit :=
+Definition w_new_batch (count : nat) (ids : list nat) (rels : list rel) (vals : list (nat * Z)) (fn : bool) : MW unit :=
   check_locked ;;;
   to_relations (mk_of_list ids) rels ;;;
   r <- new_entities count ids rels ;;
   let '(tid, start) := r in
-  l <- lockM ;;
-  forM_ (seq start count) (fun i => batch_callback tid vals i) ;;;
-  s <- get ;;
+  s0 <- get ;;
+  let has_create := has_obs s0 EvCreateEntity in
+  let has_rel := (negb (is_nil rels) && has_obs s0 EvAddRelations)%bool in
+  let should_lock := (has_create || has_rel || fn)%bool in
+  l <- (if should_lock then lockM else ret 0) ;;
+  whenM fn (forM_ (seq start count) (fun i => batch_callback tid vals i)) ;;;
   es <- rows_of tid start count ;;
-  whenM (has_obs s EvCreateEntity) (fire_rows (fun e eo => fire_create_entity e (mk_of_list ids) eo) es true) ;;;
-  s <- get ;;
-  whenM (negb (is_nil rels) && has_obs s EvAddRelations)%bool
-        (fire_rows (fun e eo => fire_create_entity_rel e (mk_of_list ids) eo) es true) ;;;
-  unlockM l.
+  whenM has_create (fire_rows (fun e eo => fire_create_entity e (mk_of_list ids) eo) es true) ;;;
+  whenM has_rel (fire_rows (fun e eo => fire_create_entity_rel e (mk_of_list ids) eo) es true) ;;;
+  whenM should_lock (unlockM l).
 
-Definition w_remove_entities (fi : nat) (rels : list rel) : MW unit :=
+Definition w_remove_entities (fi : nat) (rels : list rel) (fn : bool) : MW unit :=
   check_locked ;;;
-  l <- lockM ;;
+  s0 <- get ;;
+  let has_e := has_obs s0 EvRemoveEntity in
+  let has_r := has_obs s0 EvRemoveRelations in
+  let should_lock := (has_e || has_r || fn)%bool in
+  l <- (if should_lock then lockM else ret 0) ;;
   tables <- get_batch_tables fi rels ;;
-  forM_ tables (fun tid => t <- getT tid ;; forM_ (seq 0 (t_len t)) (fun i => batch_callback tid [] i)) ;;;
-  s <- get ;;
-  whenM (has_obs s EvRemoveEntity) (
+  whenM fn (forM_ tables (fun tid => t <- getT tid ;; forM_ (seq 0 (t_len t)) (fun i => batch_callback tid [] i))) ;;;
+  whenM has_e (
     forM_ tables (fun tid =>
       m <- arch_mask_of_table tid ;; t <- getT tid ;;
       fire_rows (fun e eo => fire_remove_entity e m eo) (firstn (t_len t) (t_ents t)) true)) ;;;
-  s <- get ;;
-  whenM (has_obs s EvRemoveRelations) (
+  whenM has_r (
     forM_ tables (fun tid =>
       t <- getT tid ;;
       whenM (tbl_has_rels t) (
@@ -1347,7 +1354,7 @@ Definition w_remove_entities (fi : nat) (rels : list rel) : MW unit :=
   forM_ cleanup (fun e =>
     cleanup_archetypes e ;;;
     modify (fun s => s <| w_istarget ::= upd (fst e) false |>)) ;;;
-  unlockM l.
+  whenM should_lock (unlockM l).
 
 (** exchangeTable *)
 Definition exchange_table (otid ntid : nat) (rels : list rel) : MW (nat * nat) :=
